@@ -161,3 +161,655 @@ theorem okExits_tail (ctx : Ctx) (who : Who) (fn : Fn) (args : List Val) (st : S
       · simp [hk] at h1
 
 end Dig
+
+namespace Dig
+
+/-! ### combinators relative to a predicate that the relation preserves -/
+
+def PresV (V : St → Prop) (R : St → St → Prop) {α : Type} (m : EM α) : Prop := ∀ st, V st → R st (m st).2
+
+section
+variable {V : St → Prop} {R : St → St → Prop} (hR : StepRel R) (hV : ∀ {a b}, V a → R a b → V b)
+include hR hV
+
+theorem presV_pure {α : Type} (a : α) : PresV V R (EM.pure a) := fun st _ => hR.refl st
+
+theorem presV_bind {α β : Type} {m : EM α} {f : α → EM β} (hm : PresV V R m) (hf : ∀ a, PresV V R (f a)) :
+    PresV V R (EM.bind m f) := by
+  intro st hv
+  unfold EM.bind
+  have h1 := hm st hv
+  cases h : m st with
+  | mk r s' =>
+    rw [h] at h1
+    cases r with
+    | ok a => exact hR.trans h1 (hf a s' (hV hv h1))
+    | error e => exact h1
+
+theorem presV_wrapErr {α : Type} {m : EM α} (w : DErr → DErr) (hm : PresV V R m) : PresV V R (EM.wrapErr m w) := by
+  intro st hv
+  unfold EM.wrapErr
+  have h1 := hm st hv
+  cases h : m st with
+  | mk r s' =>
+    rw [h] at h1
+    cases r with
+    | ok a => exact h1
+    | error e => cases e <;> exact h1
+
+theorem presV_forEachM {α : Type} (xs : List α) {f : α → EM Unit} (hf : ∀ a, PresV V R (f a)) :
+    PresV V R (forEachM xs f) := by
+  induction xs with
+  | nil => unfold forEachM; exact presV_pure hR hV ()
+  | cons x rest ih => unfold forEachM; exact presV_bind hR hV (hf x) (fun _ => ih)
+
+/-- loop over a list whose elements all satisfy a state-independent side condition -/
+theorem presV_forEachM_mem {α : Type} (xs : List α) {f : α → EM Unit} (hf : ∀ a, a ∈ xs → PresV V R (f a)) :
+    PresV V R (forEachM xs f) := by
+  induction xs with
+  | nil => unfold forEachM; exact presV_pure hR hV ()
+  | cons x rest ih =>
+    unfold forEachM
+    exact presV_bind hR hV (hf x (by simp)) (fun _ => ih (fun a ha => hf a (by simp [ha])))
+
+theorem presV_firstM_mem {α β : Type} (xs : List α) {f : α → EM (Option β)} (hf : ∀ a, a ∈ xs → PresV V R (f a)) :
+    PresV V R (firstM xs f) := by
+  induction xs with
+  | nil => unfold firstM; exact presV_pure hR hV none
+  | cons x rest ih =>
+    unfold firstM
+    apply presV_bind hR hV (hf x (by simp))
+    intro r
+    cases r with
+    | none => exact ih (fun a ha => hf a (by simp [ha]))
+    | some b => exact presV_pure hR hV (some b)
+
+theorem presV_mapM {α β : Type} (xs : List α) {f : α → EM β} (hf : ∀ a, PresV V R (f a)) :
+    PresV V R (mapM' xs f) := by
+  induction xs with
+  | nil => unfold mapM'; exact presV_pure hR hV []
+  | cons x rest ih =>
+    unfold mapM'
+    exact presV_bind hR hV (hf x) (fun b => presV_bind hR hV ih (fun bs => presV_pure hR hV (b :: bs)))
+
+theorem presV_shallowCheck (c : Nat) (ps : List Param) : PresV V R (shallowCheck c ps) := by
+  intro st _
+  unfold shallowCheck
+  split <;> exact hR.refl st
+
+end
+
+theorem flags_stepRel : StepRel Flags := ⟨Flags.refl, Flags.trans⟩
+
+theorem shallowCheck_state' (c : Nat) (ps : List Param) (st : St) : (shallowCheck c ps st).2 = st := by
+  unfold shallowCheck
+  split <;> rfl
+
+theorem wrapErr_state'' {α : Type} (m : EM α) (w : DErr → DErr) (st : St) : (EM.wrapErr m w st).2 = (m st).2 := by
+  unfold EM.wrapErr
+  cases h : m st with
+  | mk r s' =>
+    cases r with
+    | ok a => rfl
+    | error e => cases e <;> rfl
+
+theorem flags_valid {a b : St} (h : ValidReg a) (hf : Flags a b) : ValidReg b := h.of_frame hf.reg
+
+end Dig
+
+namespace Dig
+
+/-! ### one run of a node's function, as seen by the flags -/
+
+structure CtorTailFacts (n : Nat) (a b : St) : Prop where
+  reg : RegFrame a b
+  ext : ∃ l, b.hist = a.hist ++ l ∧ b.log = a.log ++ l ∧ (∀ w, w ≠ .ctor n → okExits w l = 0) ∧
+    okExits (.ctor n) l ≤ 1 ∧ (okExits (.ctor n) l = 1 → (b.ctor n).called = true)
+  others : ∀ m, m ≠ n → b.ctor m = a.ctor m
+  onStack : (b.ctor n).onStack = (a.ctor n).onStack
+  mono : (a.ctor n).called = true → (b.ctor n).called = true
+  decos : b.decos = a.decos
+
+theorem CtorTailFacts.refl (n : Nat) (a : St) : CtorTailFacts n a a :=
+  ⟨RegFrame.refl a, ⟨[], by simp, by simp, fun _ _ => rfl, by simp [okExits], fun h => by simp [okExits] at h⟩,
+   fun _ _ => rfl, rfl, fun h => h, rfl⟩
+
+theorem ctorTail_facts (ctx : Ctx) (n : Nat) (node : CtorNode) (args : List Val) (st : St) (hn : n < st.ctors.length) :
+    CtorTailFacts n st (ctorTail ctx n node args st).2 := by
+  obtain ⟨lb, lc, hh, hl, hb, hc⟩ := ctorTail_log ctx n node args st
+  have hok := okExits_tail ctx (.ctor n) node.fn args st lb lc hb hc
+  refine ⟨regFrame_ctorTail ctx st n node args, ⟨lb ++ lc, hh, hl, fun w hw => (hok w).2.1 hw, (hok _).1, ?_⟩, ?_, ?_, ?_,
+    ctorTail_decos ctx n node args st⟩
+  · intro h
+    rw [ctorTail_ctor]
+    simp [(hok _).2.2 h, hn]
+  · intro m hm
+    rw [ctorTail_ctor]
+    simp [hm.symm]
+  · rw [ctorTail_ctor]; split <;> rfl
+  · intro h
+    rw [ctorTail_ctor]; split
+    · rfl
+    · exact h
+
+structure DecoTailFacts (d : Nat) (a b : St) : Prop where
+  reg : RegFrame a b
+  ext : ∃ l, b.hist = a.hist ++ l ∧ b.log = a.log ++ l ∧ (∀ w, w ≠ .deco d → okExits w l = 0) ∧
+    okExits (.deco d) l ≤ 1 ∧ (okExits (.deco d) l = 1 → (b.deco d).state = .called)
+  others : ∀ m, m ≠ d → b.deco m = a.deco m
+  keep : (b.deco d).state = .called ∨ (b.deco d).state = (a.deco d).state
+  ctors : b.ctors = a.ctors
+
+theorem DecoTailFacts.refl (d : Nat) (a : St) : DecoTailFacts d a a :=
+  ⟨RegFrame.refl a, ⟨[], by simp, by simp, fun _ _ => rfl, by simp [okExits], fun h => by simp [okExits] at h⟩,
+   fun _ _ => rfl, Or.inr rfl, rfl⟩
+
+theorem decoTail_facts (ctx : Ctx) (d : Nat) (node : DecoNode) (args : List Val) (st : St) (hd : d < st.decos.length) :
+    DecoTailFacts d st (decoTail ctx d node args st).2 := by
+  obtain ⟨lb, lc, hh, hl, hb, hc⟩ := decoTail_log ctx d node args st
+  have hok := okExits_tail ctx (.deco d) node.fn args st lb lc hb hc
+  refine ⟨regFrame_decoTail ctx st d node args, ⟨lb ++ lc, hh, hl, fun w hw => (hok w).2.1 hw, (hok _).1, ?_⟩, ?_, ?_,
+    decoTail_ctors ctx d node args st⟩
+  · intro h
+    rw [decoTail_deco]
+    simp [(hok _).2.2 h, hd]
+  · intro m hm
+    rw [decoTail_deco]
+    simp [hm.symm]
+  · rw [decoTail_deco]; split
+    · exact Or.inl rfl
+    · exact Or.inr rfl
+
+/-! ### the brackets around the tails -/
+
+theorem modCtor_deco (st : St) (n : Nat) (f : CtorNode → CtorNode) (d : Nat) : (st.modCtor n f).deco d = st.deco d := rfl
+theorem modDeco_ctor (st : St) (d : Nat) (f : DecoNode → DecoNode) (n : Nat) : (st.modDeco d f).ctor n = st.ctor n := rfl
+
+/-- `onStack = true; defer onStack = false` around building the arguments and running the function -/
+theorem ctor_bracket (n : Nat) (st s3 s4 : St) (hn : n < st.ctors.length)
+    (hc : (st.ctor n).called = false) (ho : (st.ctor n).onStack = false)
+    (h1 : Flags (st.modCtor n fun x => { x with onStack := true }) s3) (h2 : CtorTailFacts n s3 s4) :
+    Flags st (s4.modCtor n fun x => { x with onStack := false }) := by
+  have ha1 : ∀ m, (st.modCtor n fun x => { x with onStack := true }).ctor m =
+      if n = m then { st.ctor m with onStack := true } else st.ctor m := by
+    intro m; rw [ctor_modCtor]
+    by_cases h : n = m
+    · subst h; simp [hn]
+    · simp [h]
+  have hlen4 : s4.ctors.length = st.ctors.length := by
+    have e1 := h1.reg.2.2.2.1
+    have e2 := h2.reg.2.2.2.1
+    simp [St.modCtor] at e1
+    omega
+  have h5 : ∀ m, (s4.modCtor n fun x => { x with onStack := false }).ctor m =
+      if n = m then { s4.ctor m with onStack := false } else s4.ctor m := by
+    intro m; rw [ctor_modCtor]
+    by_cases h : n = m
+    · subst h; simp [hlen4, hn]
+    · simp [h]
+  obtain ⟨l1, hh1, hl1, hc1, hd1⟩ := h1.ext
+  obtain ⟨lt, hht, hlt, hwt, hnt, hct⟩ := h2.ext
+  refine ⟨?_, ⟨l1 ++ lt, ?_, ?_, ?_, ?_⟩, ?_, ?_, ?_, ?_, ?_, ?_⟩
+  · exact (regFrame_modCtor st n (fun x => { x with onStack := true }) (fun _ => ⟨rfl, rfl, rfl, rfl, rfl, rfl, rfl⟩)).trans
+      (h1.reg.trans (h2.reg.trans
+        (regFrame_modCtor s4 n (fun x => { x with onStack := false }) (fun _ => ⟨rfl, rfl, rfl, rfl, rfl, rfl, rfl⟩))))
+  · show s4.hist = st.hist ++ (l1 ++ lt)
+    rw [hht, hh1, List.append_assoc]; rfl
+  · show s4.log = st.log ++ (l1 ++ lt)
+    rw [hlt, hl1, List.append_assoc]; rfl
+  · intro m
+    rw [okExits_append]
+    obtain ⟨a1, a2, a3, a4⟩ := hc1 m
+    rw [ha1] at a2 a3
+    by_cases hm : n = m
+    · subst hm
+      have z : okExits (.ctor n) l1 = 0 := a3 (by simp)
+      refine ⟨by omega, fun h => (by rw [hc] at h; cases h), fun h => (by rw [ho] at h; cases h), ?_⟩
+      intro h
+      rw [h5]; simp
+      exact hct (by omega)
+    · simp only [hm, if_false] at a2 a3
+      have z : okExits (.ctor m) lt = 0 := hwt _ (by intro h; injection h with h; exact hm h.symm)
+      refine ⟨by omega, fun h => (by have := a2 h; omega), fun h => (by have := a3 h; omega), ?_⟩
+      intro h
+      rw [h5]; simp only [hm, if_false]
+      rw [h2.others m (fun h => hm h.symm)]
+      exact a4 (by omega)
+  · intro d
+    rw [okExits_append]
+    obtain ⟨a1, a2, a3, a4⟩ := hd1 d
+    have z : okExits (.deco d) lt = 0 := hwt _ (by intro h; cases h)
+    rw [modCtor_deco] at a2 a3
+    refine ⟨by omega, fun h => (by have := a2 h; omega), fun h => (by have := a3 h; omega), ?_⟩
+    intro h
+    rw [modCtor_deco]
+    have : s4.deco d = s3.deco d := by simp [St.deco, h2.decos]
+    rw [this]; exact a4 (by omega)
+  · -- ctorFrame
+    intro m hm
+    have hmn : n ≠ m := fun h => by subst h; rw [ho] at hm; cases hm
+    rw [h5]; simp only [hmn, if_false]
+    rw [h2.others m (fun h => hmn h.symm)]
+    have := h1.ctorFrame m (by rw [ha1]; simp [hmn, hm])
+    rw [this, ha1]; simp [hmn]
+  · -- ctorBal
+    intro m
+    rw [h5]
+    by_cases hmn : n = m
+    · subst hmn; simp [ho]
+    · simp only [hmn, if_false]
+      rw [h2.others m (fun h => hmn h.symm), h1.ctorBal m, ha1]; simp [hmn]
+  · -- ctorMono
+    intro m hm
+    have hmn : n ≠ m := fun h => by subst h; rw [hc] at hm; cases hm
+    rw [h5]; simp only [hmn, if_false]
+    rw [h2.others m (fun h => hmn h.symm)]
+    exact h1.ctorMono m (by rw [ha1]; simp [hmn, hm])
+  · -- decoFrame
+    intro d hd
+    rw [modCtor_deco]
+    have : s4.deco d = s3.deco d := by simp [St.deco, h2.decos]
+    rw [this]
+    exact h1.decoFrame d (by rw [modCtor_deco]; exact hd)
+  · intro d
+    rw [modCtor_deco]
+    have : s4.deco d = s3.deco d := by simp [St.deco, h2.decos]
+    rw [this]
+    have := h1.decoBal d
+    rw [modCtor_deco] at this
+    exact this
+  · intro d hd
+    rw [modCtor_deco]
+    have : s4.deco d = s3.deco d := by simp [St.deco, h2.decos]
+    rw [this]
+    exact h1.decoMono d (by rw [modCtor_deco]; exact hd)
+
+end Dig
+
+namespace Dig
+
+/-- `state = onStack; defer (reset to ready unless called)` around building the arguments and running the decorator -/
+theorem deco_bracket (d : Nat) (st s3 s4 : St) (hd : d < st.decos.length)
+    (hs : (st.deco d).state ≠ .called) (ho : (st.deco d).state ≠ .onStack)
+    (h1 : Flags (st.modDeco d fun x => { x with state := .onStack }) s3) (h2 : DecoTailFacts d s3 s4) :
+    Flags st (s4.modDeco d fun x => if x.state == .called then x else { x with state := .ready }) := by
+  have ha1 : ∀ m, (st.modDeco d fun x => { x with state := .onStack }).deco m =
+      if d = m then { st.deco m with state := .onStack } else st.deco m := by
+    intro m; rw [deco_modDeco]
+    by_cases h : d = m
+    · subst h; simp [hd]
+    · simp [h]
+  have hlen4 : s4.decos.length = st.decos.length := by
+    have e1 := h1.reg.2.2.2.2.2.1
+    have e2 := h2.reg.2.2.2.2.2.1
+    simp [St.modDeco] at e1
+    omega
+  have h5 : ∀ m, (s4.modDeco d fun x => if x.state == .called then x else { x with state := .ready }).deco m =
+      if d = m then (if (s4.deco m).state == .called then s4.deco m else { s4.deco m with state := .ready }) else s4.deco m := by
+    intro m; rw [deco_modDeco]
+    by_cases h : d = m
+    · subst h; simp [hlen4, hd]
+    · simp [h]
+  have hc4 : ∀ n, s4.ctor n = s3.ctor n := fun n => by simp [St.ctor, h2.ctors]
+  obtain ⟨l1, hh1, hl1, hc1, hd1⟩ := h1.ext
+  obtain ⟨lt, hht, hlt, hwt, hnt, hct⟩ := h2.ext
+  refine ⟨?_, ⟨l1 ++ lt, ?_, ?_, ?_, ?_⟩, ?_, ?_, ?_, ?_, ?_, ?_⟩
+  · exact (regFrame_modDeco st d (fun x => { x with state := .onStack }) (fun _ => ⟨rfl, rfl, rfl, rfl, rfl⟩)).trans
+      (h1.reg.trans (h2.reg.trans
+        (regFrame_modDeco s4 d (fun x => if x.state == .called then x else { x with state := .ready })
+          (fun x => by split <;> exact ⟨rfl, rfl, rfl, rfl, rfl⟩))))
+  · show s4.hist = st.hist ++ (l1 ++ lt)
+    rw [hht, hh1, List.append_assoc]; rfl
+  · show s4.log = st.log ++ (l1 ++ lt)
+    rw [hlt, hl1, List.append_assoc]; rfl
+  · intro n
+    rw [okExits_append]
+    obtain ⟨a1, a2, a3, a4⟩ := hc1 n
+    have z : okExits (.ctor n) lt = 0 := hwt _ (by intro h; cases h)
+    rw [modDeco_ctor] at a2 a3
+    refine ⟨by omega, fun h => (by have := a2 h; omega), fun h => (by have := a3 h; omega), ?_⟩
+    intro h
+    rw [modDeco_ctor, hc4]; exact a4 (by omega)
+  · intro m
+    rw [okExits_append]
+    obtain ⟨a1, a2, a3, a4⟩ := hd1 m
+    rw [ha1] at a2 a3
+    by_cases hm : d = m
+    · subst hm
+      have z : okExits (.deco d) l1 = 0 := a3 (by simp)
+      refine ⟨by omega, fun h => absurd h hs, fun h => absurd h ho, ?_⟩
+      intro h
+      have hcalled := hct (by omega)
+      rw [h5]; simp [hcalled]
+    · simp only [hm, if_false] at a2 a3
+      have z : okExits (.deco m) lt = 0 := hwt _ (by intro h; injection h with h; exact hm h.symm)
+      refine ⟨by omega, fun h => (by have := a2 h; omega), fun h => (by have := a3 h; omega), ?_⟩
+      intro h
+      rw [h5]; simp only [hm, if_false]
+      rw [h2.others m (fun h => hm h.symm)]
+      exact a4 (by omega)
+  · intro n hn
+    rw [modDeco_ctor, hc4]
+    have := h1.ctorFrame n (by rw [modDeco_ctor]; exact hn)
+    rw [this, modDeco_ctor]
+  · intro n
+    rw [modDeco_ctor, hc4, h1.ctorBal n, modDeco_ctor]
+  · intro n hn
+    rw [modDeco_ctor, hc4]
+    exact h1.ctorMono n (by rw [modDeco_ctor]; exact hn)
+  · -- decoFrame
+    intro m hm
+    have hmd : d ≠ m := fun h => by subst h; exact ho hm
+    rw [h5]; simp only [hmd, if_false]
+    rw [h2.others m (fun h => hmd h.symm)]
+    have := h1.decoFrame m (by rw [ha1]; simp [hmd, hm])
+    rw [this, ha1]; simp [hmd]
+  · -- decoBal
+    intro m
+    rw [h5]
+    by_cases hmd : d = m
+    · subst hmd
+      simp only [if_true]
+      constructor
+      · intro h
+        split at h
+        · rename_i hc; simp at hc; rw [hc] at h; cases h
+        · simp at h
+      · intro h; exact absurd h ho
+    · simp only [hmd, if_false]
+      rw [h2.others m (fun h => hmd h.symm)]
+      have := h1.decoBal m
+      rw [ha1] at this
+      simpa [hmd] using this
+  · -- decoMono
+    intro m hm
+    have hmd : d ≠ m := fun h => by subst h; exact hs hm
+    rw [h5]; simp only [hmd, if_false]
+    rw [h2.others m (fun h => hmd h.symm)]
+    exact h1.decoMono m (by rw [ha1]; simp [hmd, hm])
+
+end Dig
+
+namespace Dig
+
+/-! ### the resolver respects the flag discipline -/
+
+/-- validity of the registry, with the table sizes named -/
+def VL (L L' : Nat) (s : St) : Prop := ValidReg s ∧ s.ctors.length = L ∧ s.decos.length = L'
+
+theorem VL.step {L L' : Nat} {a b : St} (h : VL L L' a) (hf : Flags a b) : VL L L' b :=
+  ⟨h.1.of_frame hf.reg, by rw [← hf.reg.2.2.2.1]; exact h.2.1, by rw [← hf.reg.2.2.2.2.2.1]; exact h.2.2⟩
+
+theorem findDeco_some (st : St) (k : Key) (anc : List Nat) (d ds : Nat) (h : findDeco st k anc = some (d, ds)) :
+    aget (st.scope ds).decorators k = some d ∧ (st.deco d).state ≠ .onStack := by
+  induction anc with
+  | nil => simp [findDeco] at h
+  | cons s rest ih =>
+    simp only [findDeco] at h
+    split at h
+    · rename_i d' hd'
+      split at h
+      · exact ih h
+      · rename_i hne
+        injection h with h; injection h with e1 e2; subst e1; subst e2
+        exact ⟨hd', by intro hc; apply hne; simp [hc]⟩
+    · exact ih h
+
+theorem findProviders_providers (st : St) (k : Key) (anc : List Nat) (pc : Nat) (ns : List Nat)
+    (h : findProviders st k anc = .providers pc ns) : ns = agetL (st.scope pc).providers k := by
+  induction anc with
+  | nil => simp [findProviders] at h
+  | cons s rest ih =>
+    simp only [findProviders] at h
+    split at h
+    · cases h
+    · split at h
+      · exact ih h
+      · rename_i hne
+        injection h with e1 e2
+        subst e1; subst e2
+        rfl
+
+theorem ctorOutcome_ok_iff (ctx : Ctx) (f : Nat) (r : BodyRes) :
+    (∃ u, (ctorOutcome ctx f r).1 = .ok u) ↔ r.commits = true := by
+  cases r <;> simp [ctorOutcome, BodyRes.commits]
+  split <;> simp
+
+theorem decoOutcome_ok_iff (ctx : Ctx) (f : Nat) (r : BodyRes) :
+    (∃ u, (decoOutcome ctx f r).1 = .ok u) ↔ r.commits = true := by
+  cases r <;> simp [decoOutcome, BodyRes.commits]
+  split <;> simp
+
+/-- the part of `constructorNode.Call` between setting and clearing `onStack`; when it ends with a
+    failure the constructor's `called` flag is what it was after its arguments were built -/
+theorem ctor_inner (ctx : Ctx) (fuel n c : Nat) (node : CtorNode) (L L' : Nat) (hn : n < L)
+    (hL : PresV (VL L L') Flags (buildList ctx fuel node.params c)) (st1 : St) (hv : VL L L' st1) :
+    ∃ s3, Flags st1 s3 ∧ CtorTailFacts n s3
+      ((EM.bind (shallowCheck c node.params) fun _ =>
+        EM.bind (EM.wrapErr (buildList ctx fuel node.params c) .argsFailed) fun args =>
+        ctorTail ctx n node args) st1).2 ∧
+      (∀ e, ((EM.bind (shallowCheck c node.params) fun _ =>
+        EM.bind (EM.wrapErr (buildList ctx fuel node.params c) .argsFailed) fun args =>
+        ctorTail ctx n node args) st1).1 = .error e →
+        (((EM.bind (shallowCheck c node.params) fun _ =>
+        EM.bind (EM.wrapErr (buildList ctx fuel node.params c) .argsFailed) fun args =>
+        ctorTail ctx n node args) st1).2.ctor n).called = (s3.ctor n).called) := by
+  unfold EM.bind
+  have hs := shallowCheck_state' c node.params st1
+  cases hsc : shallowCheck c node.params st1 with
+  | mk r1 s1 =>
+    rw [hsc] at hs; simp only at hs; subst hs
+    cases r1 with
+    | error e => exact ⟨s1, Flags.refl _, CtorTailFacts.refl _ _, fun _ _ => rfl⟩
+    | ok u =>
+      simp only
+      have hb := presV_wrapErr flags_stepRel (fun h1 h2 => VL.step h1 h2) .argsFailed hL s1 hv
+      cases hbl : EM.wrapErr (buildList ctx fuel node.params c) DErr.argsFailed s1 with
+      | mk r2 s3 =>
+        rw [hbl] at hb
+        cases r2 with
+        | error e => exact ⟨s3, hb, CtorTailFacts.refl _ _, fun _ _ => rfl⟩
+        | ok args =>
+          simp only
+          have hv3 := VL.step hv hb
+          refine ⟨s3, hb, ctorTail_facts ctx n node args s3 (by rw [hv3.2.1]; exact hn), ?_⟩
+          intro e he
+          have hnc : (callBody ctx (.ctor n) node.fn args s3).1.commits ≠ true := by
+            intro hcm
+            obtain ⟨u, hu⟩ := (ctorOutcome_ok_iff ctx node.fn.id _).mpr hcm
+            simp only [ctorTail] at he
+            rw [hu] at he; cases he
+          rw [ctorTail_ctor]; simp [hnc]
+
+theorem deco_inner (ctx : Ctx) (fuel d c : Nat) (node : DecoNode) (L L' : Nat) (hd : d < L')
+    (hL : PresV (VL L L') Flags (buildList ctx fuel node.params node.s)) (st1 : St) (hv : VL L L' st1) :
+    ∃ s3, Flags st1 s3 ∧ DecoTailFacts d s3
+      ((EM.bind (shallowCheck c node.params) fun _ =>
+        EM.bind (EM.wrapErr (buildList ctx fuel node.params node.s) .argsFailed) fun args =>
+        decoTail ctx d node args) st1).2 ∧
+      (∀ e, ((EM.bind (shallowCheck c node.params) fun _ =>
+        EM.bind (EM.wrapErr (buildList ctx fuel node.params node.s) .argsFailed) fun args =>
+        decoTail ctx d node args) st1).1 = .error e →
+        (((EM.bind (shallowCheck c node.params) fun _ =>
+        EM.bind (EM.wrapErr (buildList ctx fuel node.params node.s) .argsFailed) fun args =>
+        decoTail ctx d node args) st1).2.deco d).state = (s3.deco d).state) := by
+  unfold EM.bind
+  have hs := shallowCheck_state' c node.params st1
+  cases hsc : shallowCheck c node.params st1 with
+  | mk r1 s1 =>
+    rw [hsc] at hs; simp only at hs; subst hs
+    cases r1 with
+    | error e => exact ⟨s1, Flags.refl _, DecoTailFacts.refl _ _, fun _ _ => rfl⟩
+    | ok u =>
+      simp only
+      have hb := presV_wrapErr flags_stepRel (fun h1 h2 => VL.step h1 h2) .argsFailed hL s1 hv
+      cases hbl : EM.wrapErr (buildList ctx fuel node.params node.s) DErr.argsFailed s1 with
+      | mk r2 s3 =>
+        rw [hbl] at hb
+        cases r2 with
+        | error e => exact ⟨s3, hb, DecoTailFacts.refl _ _, fun _ _ => rfl⟩
+        | ok args =>
+          simp only
+          have hv3 := VL.step hv hb
+          refine ⟨s3, hb, decoTail_facts ctx d node args s3 (by rw [hv3.2.2]; exact hd), ?_⟩
+          intro e he
+          have hnc : (callBody ctx (.deco d) node.fn args s3).1.commits ≠ true := by
+            intro hcm
+            obtain ⟨u, hu⟩ := (decoOutcome_ok_iff ctx node.fn.id _).mpr hcm
+            simp only [decoTail] at he
+            rw [hu] at he; cases he
+          rw [decoTail_deco]; simp [hnc]
+
+end Dig
+
+namespace Dig
+
+theorem engine_flags (ctx : Ctx) (L L' : Nat) :
+    ∀ fuel,
+      (∀ n c, n < L → PresV (VL L L') Flags (callCtor ctx fuel n c)) ∧
+      (∀ d s st, d < L' → VL L L' st → (st.deco d).state ≠ .onStack → Flags st (callDeco ctx fuel d s st).2) ∧
+      (∀ k opt c, PresV (VL L L') Flags (buildSingle ctx fuel k opt c)) ∧
+      (∀ k soft c, PresV (VL L L') Flags (buildGroup ctx fuel k soft c)) ∧
+      (∀ p c, PresV (VL L L') Flags (buildParam ctx fuel p c)) ∧
+      (∀ ps c, PresV (VL L L') Flags (buildList ctx fuel ps c)) := by
+  have hR := flags_stepRel
+  have hV : ∀ {a b : St}, VL L L' a → Flags a b → VL L L' b := fun h1 h2 => VL.step h1 h2
+  intro fuel
+  induction fuel with
+  | zero =>
+    refine ⟨?_, ?_, ?_, ?_, ?_, ?_⟩
+    · intro n c _ st _; simp only [callCtor]; exact Flags.refl st
+    · intro d s st _ _ _; simp only [callDeco]; exact Flags.refl st
+    · intro k o c st _; simp only [buildSingle]; exact Flags.refl st
+    · intro k o c st _; simp only [buildGroup]; exact Flags.refl st
+    · intro p c st _; simp only [buildParam]; exact Flags.refl st
+    · intro ps c st _; simp only [buildList]; exact Flags.refl st
+  | succ fuel ih =>
+    obtain ⟨ihC, ihD, ihS, ihG, ihP, ihL⟩ := ih
+    refine ⟨?_, ?_, ?_, ?_, ?_, ?_⟩
+    · -- callCtor
+      intro n c hn st hv
+      simp only [callCtor]
+      split
+      · exact Flags.refl st
+      · rename_i hcalled
+        split
+        · exact Flags.refl st
+        · rename_i hon
+          have hc : (st.ctor n).called = false := by simpa using hcalled
+          have ho : (st.ctor n).onStack = false := by simpa using hon
+          have hv1 : VL L L' (st.modCtor n fun x => { x with onStack := true }) :=
+            ⟨hv.1.of_frame (regFrame_modCtor st n _ (fun _ => ⟨rfl, rfl, rfl, rfl, rfl, rfl, rfl⟩)),
+             by simp [St.modCtor, hv.2.1], hv.2.2⟩
+          obtain ⟨s3, h1, h2, _⟩ := ctor_inner ctx fuel n c (st.ctor n) L L' hn (ihL _ _) _ hv1
+          unfold EM.finally_
+          simp only
+          exact ctor_bracket n st s3 _ (by rw [hv.2.1]; exact hn) hc ho h1 h2
+    · -- callDeco
+      intro d s st hd hv hne
+      simp only [callDeco]
+      split
+      · exact Flags.refl st
+      · rename_i hcalled
+        have hs : (st.deco d).state ≠ .called := by
+          intro h; apply hcalled; simp [h]
+        have hv1 : VL L L' (st.modDeco d fun x => { x with state := .onStack }) :=
+          ⟨hv.1.of_frame (regFrame_modDeco st d _ (fun _ => ⟨rfl, rfl, rfl, rfl, rfl⟩)),
+           hv.2.1, by simp [St.modDeco, hv.2.2]⟩
+        obtain ⟨s3, h1, h2, _⟩ := deco_inner ctx fuel d s (st.deco d) L L' hd (ihL _ _) _ hv1
+        unfold EM.finally_
+        simp only
+        exact deco_bracket d st s3 _ (by rw [hv.2.2]; exact hd) hs hne h1 h2
+    · -- buildSingle
+      intro k opt c st hv
+      simp only [buildSingle]
+      split
+      · rename_i d ds hfd
+        obtain ⟨hdec, hst⟩ := findDeco_some st k _ d ds hfd
+        have hdl : d < L' := by rw [← hv.2.2]; exact hv.1.2 ds k d hdec
+        have h1 : Flags st (EM.wrapErr (callDeco ctx fuel d ds) (DErr.paramSingle k 1) st).2 := by
+          rw [wrapErr_state'']; exact ihD d ds st hdl hv hst
+        unfold EM.bind
+        cases hw : EM.wrapErr (callDeco ctx fuel d ds) (DErr.paramSingle k 1) st with
+        | mk r s' =>
+          rw [hw] at h1
+          cases r with
+          | error e => exact h1
+          | ok u => simp only; split <;> exact h1
+      · split
+        · exact Flags.refl st
+        · split
+          · exact Flags.refl st
+          · split <;> exact Flags.refl st
+          · rename_i pc ns hfp
+            have hns := findProviders_providers st k _ pc ns hfp
+            have hmem : ∀ n, n ∈ ns → n < L := by
+              intro n hn; rw [hns] at hn; rw [← hv.2.1]; exact hv.1.1 pc k n hn
+            have h1 := presV_firstM_mem hR hV ns (f := fun n => fun st1 =>
+                providerStep ctx.env k opt (ctorId ctx.sameIds (st1.ctor n).fn) (callCtor ctx fuel n (st1.ctor n).origS st1))
+              (fun n hn st1 hv1 => by
+                rw [providerStep_state]
+                exact ihC n _ (hmem n hn) st1 hv1) st hv
+            unfold EM.bind
+            cases hw : firstM ns (fun n => fun st1 =>
+                providerStep ctx.env k opt (ctorId ctx.sameIds (st1.ctor n).fn) (callCtor ctx fuel n (st1.ctor n).origS st1)) st with
+            | mk r s' =>
+              rw [hw] at h1
+              cases r with
+              | error e => exact h1
+              | ok early =>
+                simp only
+                split
+                · exact h1
+                · split <;> exact h1
+    · -- buildGroup
+      intro k soft c st hv
+      simp only [buildGroup]
+      apply presV_bind hR hV (m := forEachM (st.ancestors c).reverse _) ?_ ?_ st hv
+      · apply presV_forEachM hR hV
+        intro s st1 hv1
+        simp only
+        split
+        · rename_i d hdec
+          split
+          · exact Flags.refl st1
+          · rename_i hne
+            rw [wrapErr_state'']
+            refine ihD d s st1 (by rw [← hv1.2.2]; exact hv1.1.2 s k d hdec) hv1 ?_
+            intro hc; apply hne; simp [hc]
+        · exact Flags.refl st1
+      · intro _ st2 hv2
+        simp only
+        split
+        · exact Flags.refl st2
+        · apply presV_bind hR hV ?_ ?_ st2 hv2
+          · split
+            · exact presV_pure hR hV ()
+            · apply presV_forEachM hR hV
+              intro s st3 hv3
+              apply presV_forEachM_mem hR hV _ ?_ st3 hv3
+              intro n hn st4 hv4
+              rw [wrapErr_state'']
+              exact ihC n _ (by rw [← hv3.2.1]; exact hv3.1.1 s k n hn) st4 hv4
+          · intro _ st5 _
+            exact Flags.refl st5
+    · -- buildParam
+      intro p c
+      cases p with
+      | single k opt => simp only [buildParam]; exact ihS k opt c
+      | grouped ty k soft pg => simp only [buildParam]; exact ihG k soft c
+      | object ty fs =>
+        simp only [buildParam]
+        apply presV_bind hR hV (presV_mapM hR hV _ (fun f => ihP f c))
+        intro hard
+        apply presV_bind hR hV (presV_mapM hR hV _ (fun f => ihP f c))
+        intro soft
+        exact presV_pure hR hV _
+    · -- buildList
+      intro ps c
+      simp only [buildList]
+      exact presV_mapM hR hV _ (fun p => ihP p c)
+
+end Dig
+
+#print axioms Dig.engine_flags
